@@ -12,6 +12,8 @@ r = sh(f"/venv/bin/python {sd}/demo.py /repo", timeout=1800); ran["demo_on_repo"
 assert r.returncode == 0, ("demo fails on unpatched /repo", r.stdout[-500:], r.stderr[-500:])
 r = sh(f"git -C /repo apply --check {sd}/patch.diff"); assert r.returncode == 0, ("patch does not apply", r.stderr)
 sh(f"git -C /repo apply {sd}/patch.diff")
+evbak = tempfile.mkdtemp(prefix="pv-ev-", dir="/var/tmp")
+sh(f"cp -a /verif/evidence/. {evbak}/")
 try:
     r = sh(f"/venv/bin/python {sd}/demo.py /repo", timeout=1800); ran["demo_on_patched"] = r.returncode
     demo_out = (r.stdout + r.stderr)[-600:]
@@ -23,6 +25,7 @@ try:
         print(c, "exit", q.returncode, *lines[:3], sep="\n   ")
 finally:
     sh("git -C /repo checkout -- . && git -C /repo clean -fdq pyvolutionary")
+    sh(f"rm -rf /verif/evidence && mkdir -p /verif/evidence && cp -a {evbak}/. /verif/evidence/ && rm -rf {evbak}")      # evidence must come from the unchanged tree
 assert sh("git -C /repo status --porcelain").stdout.strip() == ""
 out = f"/verif/seeded/{name}"; os.makedirs(out, exist_ok=True)
 shutil.copy(f"{sd}/patch.diff", out); shutil.copy(f"{sd}/demo.py", out)
